@@ -87,6 +87,11 @@ def non_test(src):
         out.append(src[i:m.start()])
         # the item that follows: up to its block's end, or to the next ';' when it has no block first
         j = m.end()
+        eol = src.find("\n", j)
+        if eol >= 0 and src[j:eol].rstrip().endswith(","):
+            # a cfg'd struct field / field initialiser: one line
+            i = eol + 1
+            continue
         semi = src.find(";", j)
         brace = src.find("{", j)
         if brace >= 0 and (semi < 0 or brace < semi):
